@@ -90,6 +90,7 @@ func (w *c12Writer) Write(b []byte) (int, error) {
 	}
 	return w.body.Write(b)
 }
+
 // like net/http's *response the writer implements io.ReaderFrom and io.StringWriter, so wrappers
 // that forward to such fast paths are exercised
 func (w *c12Writer) ReadFrom(src io.Reader) (int64, error) {
@@ -130,6 +131,11 @@ func (p c12Probe) ServeHTTP(w http.ResponseWriter, r *http.Request) (int, error)
 		b := hx.UnH(body)
 		if cl {
 			w.Header().Set("Content-Length", strconv.Itoa(len(b)))
+		}
+		if strings.HasPrefix(mode, "e") {
+			// an already encoded response: gzip's response filters must leave it alone
+			w.Header().Set("Content-Encoding", c12OwnCoding)
+			mode = mode[1:]
 		}
 		for strings.HasPrefix(mode, "i") {
 			// informational headers first: the response header proper follows
@@ -223,9 +229,9 @@ func c12Info(w http.ResponseWriter, k int) {
 }
 
 var (
-	c12Once  sync.Once
-	c12Dir   string
-	c12Insts = map[string]*casket.Instance{}
+	c12Once     sync.Once
+	c12Dir      string
+	c12Insts    = map[string]*casket.Instance{}
 	c12Base     = map[string]string{} // per site: what a fresh instance answered to the follow-up requests
 	c12BaseLive = map[string]string{}
 )
@@ -240,6 +246,10 @@ var c12Bodies = map[string]string{
 }
 
 func c12Render(src []byte) []byte { return bytes.ReplaceAll(src, []byte("{{.Method}}"), []byte("GET")) }
+
+// the content coding the probe labels its own ("already encoded") responses with; the bytes are
+// the handler's and must arrive untouched
+const c12OwnCoding = "x-c12"
 
 const c12Custom = "CUSTOM-404-PAGE\n"
 const c12Follow = "FOLLOWUP-OK\n"
@@ -481,6 +491,8 @@ func c12Classify(ce string, raw []byte, inner []byte) string {
 		segs = append(segs, c12Chunks(dec, inner, true)...)
 		rest, _ := io.ReadAll(br)
 		segs = append(segs, c12Chunks(rest, inner, false)...)
+	} else if ce == c12OwnCoding {
+		segs = c12Chunks(raw, inner, false)
 	} else if ce != "" {
 		return "X:content-encoding:" + hx.HS(ce)
 	} else {
@@ -645,6 +657,12 @@ func c12Inners() []string {
 		c12Write("200", "texec", 0, 1, "iw"), c12Write("201", "plain", 1, 0, "iw"), c12Write("404", "plain", 0, 1, "iiw"),
 		// informational headers, then no response of the handler's own: an error status, nothing, a panic
 		"ret:404:0:1", "ret:500:1:2", "ret:403:0:3", "ret:0:0:1", "ret:200:0:2", "panic:1", "panic:2")
+	// a response gzip's response filters decline to compress (204: nothing to encode), flushed by the
+	// handler: the Flush must reach the connection's writer without a second WriteHeader
+	out = append(out, c12Write("204", "plain", 0, 1, "wf"), c12Write("204", "plain", 0, 0, "wf"), c12Write("204", "tok", 1, 0, "wf"))
+	// ... and a response that already carries a Content-Encoding of its own
+	out = append(out, c12Write("200", "plain", 0, 1, "ew"), c12Write("404", "plain", 0, 0, "ewf"), c12Write("-", "plain", 0, 1, "efw"),
+		c12Write("200", "tok", 0, 0, "ewf"), c12Write("201", "plain", 1, 1, "ewf"), c12Write("-", "tok", 0, 0, "ec"))
 	// bodies that are templates (render fine / do not parse / fail while executing) or plain, with
 	// and without an explicit Content-Length, written with Write, io.Copy, io.WriteString, Write+Flush
 	for _, k := range []string{"plain", "tok", "tparse", "texec"} {
